@@ -1,5 +1,5 @@
 SPECIFICATION Spec
-CONSTANT Ctx = "root"
+CONSTANT Ctx = "typeBody"
 INVARIANT KeywordsExact
 INVARIANT FirstDeviation
 INVARIANT NeedsTerminator
